@@ -945,7 +945,27 @@ def mask_shift(rng):
                         a.emit(("push", 1 << kk, None), "SWAP1", "DIV")
                     a.emit(("push", (1 << ww) - 1, None), "AND", dst if dst else ("push", 0, 1), "SSTORE")
                 last = chain[-1]
-                a.emit(last if last else ("push", 0, 1), "SLOAD", rng.choice([8, 72, 200]), "SHR", 0xff, "AND", 0, "MSTORE")
+                # ... and a field of the last copy is read: narrow or wide, optionally used as a typed quantity
+                fw = rng.choice([8, 8, 64, 128, 160])
+                a.emit(last if last else ("push", 0, 1), "SLOAD", rng.choice([8, 72, 200]), "SHR",
+                       ("push", (1 << fw) - 1, None), "AND")
+                use = rng.choice(["none", "none", "sdiv", "sar", "signext", "slt", "smod", "iszero", "balance"])
+                if use == "sdiv":
+                    a.emit(rng.choice([2, 3, 7]), "SWAP1", "SDIV")
+                elif use == "smod":
+                    a.emit(rng.choice([2, 3, 7]), "SWAP1", "SMOD")
+                elif use == "sar":
+                    a.emit(rng.choice([1, 4]), "SAR")
+                elif use == "signext":
+                    a.emit(max(0, fw // 8 - 1), "SIGNEXTEND")
+                elif use == "slt":
+                    a.emit(4, "CALLDATALOAD", "SLT")
+                elif use == "iszero":
+                    a.emit("ISZERO", "ISZERO")
+                elif use == "balance":
+                    a.emit("BALANCE")
+                feats.add("copy-chain-use:" + use)
+                a.emit(0, "MSTORE")
             elif style == "shr-and-positioned":
                 kk = rng.choice([8, 64, 100, 112, 128, 200])
                 pos = rng.choice([8, 64, 128, 152, 200, 240])
@@ -1311,7 +1331,8 @@ def multi_evidence(rng):
     slots = rng.sample([0, 1, 2, 3, 5, 8, 13], nslots)
     branches = []
     kinds = ["dynarray", "mapping", "bool-write", "address-write", "masked-write", "packed-write", "signed-use",
-             "numeric-use", "copy-from", "plain-read", "bytes32-compare", "unsigned-use", "address-use", "selector-use"]
+             "numeric-use", "copy-from", "plain-read", "bytes32-compare", "unsigned-use", "address-use", "selector-use",
+             "struct-init", "struct-init"]
     wordish = ["bool-write", "address-write", "masked-write", "signed-use", "numeric-use", "unsigned-use", "address-use",
                "plain-read", "bytes32-compare", "selector-use"]
     for s in slots:
@@ -1319,14 +1340,18 @@ def multi_evidence(rng):
         for k in rng.sample(pool, rng.randint(2, 4)):
             branches.append((s, k))
     rng.shuffle(branches)
-    a.emit(0, "CALLDATALOAD", 0xe0, "SHR")
-    for i in range(len(branches)):
-        a.emit("DUP1", ("push", 0xe0000000 + i, 4), "EQ")
-        a.jumpi("B%d" % i)
-    a.emit("STOP")
-    feats = set()
+    # a third of the programs are one straight line (every piece of evidence on the same thread, in sequence)
+    straight = rng.random() < 0.3
+    if not straight:
+        a.emit(0, "CALLDATALOAD", 0xe0, "SHR")
+        for i in range(len(branches)):
+            a.emit("DUP1", ("push", 0xe0000000 + i, 4), "EQ")
+            a.jumpi("B%d" % i)
+        a.emit("STOP")
+    feats = {"straight-line"} if straight else set()
     for i, (s, k) in enumerate(branches):
-        a.label("B%d" % i)
+        if not straight:
+            a.label("B%d" % i)
         sp = s if s else ("push", 0, 1)
         feats.add(k)
         if k == "dynarray":
@@ -1377,7 +1402,51 @@ def multi_evidence(rng):
             a.emit(sp, "SLOAD", 0, "MSTORE")
         elif k == "bytes32-compare":
             a.emit(sp, "SLOAD", ("push", rng.getrandbits(256), 32), "EQ", 0, "MSTORE")
-        a.emit("STOP")
+        elif k == "struct-init":
+            # one SSTORE packing 2-3 fields; a non-first field's value is a stack duplicate that is also stored, whole,
+            # in another slot (one value, two storage writes)
+            other = rng.choice([x for x in [0, 1, 2, 3, 5, 8, 13, 21] if x != s])
+            if rng.random() < 0.6:
+                # ... and the whole slot is also used, unmasked, as a typed word on the same thread
+                a.emit(sp, "SLOAD", rng.choice(["EXTCODEHASH", "BALANCE", "EXTCODESIZE", "ISZERO"]), 0x60 + s, "SSTORE")
+            w2 = rng.choice([8, 16, 64])
+            a.emit(4, "CALLDATALOAD", ("push", (1 << w2) - 1, None), "AND", "DUP1", other if other else ("push", 0, 1), "SSTORE")
+            first_w = rng.choice([160, 128, 8])
+            a.emit(36, "CALLDATALOAD", ("push", (1 << first_w) - 1, None), "AND")      # first field
+            a.emit("SWAP1", ("push", 1 << first_w, None), "MUL", "OR")                  # | shared << first_w
+            if rng.random() < 0.4 and first_w + w2 <= 192:
+                a.emit("CALLVALUE", ("push", 0xff, 1), "AND", ("push", 1 << (first_w + w2), None), "MUL", "OR")
+            a.emit(sp, "SSTORE")
+        if not straight:
+            a.emit("STOP")
+    a.emit("STOP")
+    return a.assemble(), feats
+
+
+def struct_inits(rng):
+    """Straight-line struct initialisations on otherwise untouched slots: the whole slot is first used as a typed word,
+    then written by one SSTORE that packs 2-3 fields, one of which is a stack duplicate also stored whole elsewhere."""
+    a = evm.Asm()
+    feats = {"struct-inits"}
+    slots = rng.sample(range(0, 12), rng.randint(1, 3))
+    for n, s in enumerate(slots):
+        sp = s if s else ("push", 0, 1)
+        other = 0x20 + n
+        use = rng.choice(["EXTCODEHASH", "BALANCE", "EXTCODESIZE", "ISZERO", None])
+        if use:
+            a.emit(sp, "SLOAD", use, 0x40 + n, "SSTORE")
+            feats.add("typed-use:" + use)
+        w2 = rng.choice([8, 16, 64])
+        first_w = rng.choice([160, 128, 8])
+        a.emit(4 + 32 * n, "CALLDATALOAD", ("push", (1 << w2) - 1, None), "AND", "DUP1", other, "SSTORE")
+        a.emit(36 + 32 * n, "CALLDATALOAD", ("push", (1 << first_w) - 1, None), "AND")
+        a.emit("SWAP1", ("push", 1 << first_w, None), "MUL", "OR")
+        if rng.random() < 0.4 and first_w + w2 <= 192:
+            a.emit("CALLVALUE", ("push", 0xff, 1), "AND", ("push", 1 << (first_w + w2), None), "MUL", "OR")
+        a.emit(sp, "SSTORE")
+        if rng.random() < 0.3:
+            a.emit(sp, "SLOAD", ("push", (1 << first_w) - 1, None), "AND", 0, "MSTORE")
+    a.emit("STOP")
     return a.assemble(), feats
 
 
